@@ -1,5 +1,7 @@
 //! vh — conformance harness binding the TLA+ specification in /verif/spec to the real engine.
+mod astjson;
 mod lex;
+mod parse;
 mod util;
 
 fn main() {
@@ -11,6 +13,9 @@ fn main() {
     match args[0].as_str() {
         "lex-replay" => lex::replay(rest),
         "lex-record" => lex::record(rest),
+        "parse-replay" => parse::replay(rest),
+        "parse-record" => parse::record(rest),
+        "parse-one" => parse::one(rest),
         other => util::tool_error(&format!("unknown command {}", other)),
     }
 }
